@@ -14,7 +14,7 @@
 
 enum { OK_CTR, OK_PAR };
 enum { PH_ZERO, PH_LIVE, PH_CLEANED, PH_FAILED };
-enum { L_INIT, L_KEY, L_TKEY, L_TWEAK, L_CTR, L_USE, L_USEBIG, L_SWAP, L_CLEANUP, L_KEYSHORT, L_USE0, L_INITFAIL };
+enum { L_INIT, L_KEY, L_TKEY, L_TWEAK, L_CTR, L_USE, L_USEBIG, L_SWAP, L_CLEANUP, L_KEYSHORT, L_USE0, L_INITFAIL, L_USEDEC };
 
 static int g_mode;               /* 15 or 17 */
 static int g_okind; static Cipher g_c; static int g_be, g_bs;
@@ -53,6 +53,7 @@ static void l_build(void)
         }
         l_ops[l_nops].type = L_USE; l_ops[l_nops++].obj = i;
         if (g_mode == 15) { l_ops[l_nops].type = L_USE0; l_ops[l_nops++].obj = i; }      /* zero-length request: still 0 on a dead object */
+        if (g_okind == OK_PAR && g_c != CK_MANTIS && (g_mode == 17 || i == 0)) { l_ops[l_nops].type = L_USEDEC; l_ops[l_nops++].obj = i; }   /* the decrypt entry point */
         if (g_mode == 17 && g_okind == OK_CTR) { l_ops[l_nops].type = L_USEBIG; l_ops[l_nops++].obj = i; }
         if (g_okind == OK_PAR && g_c == CK_MANTIS) { l_ops[l_nops].type = L_SWAP; l_ops[l_nops++].obj = i; }
         l_ops[l_nops].type = L_CLEANUP; l_ops[l_nops++].obj = i;
@@ -74,7 +75,7 @@ static int l_enabled(int op)
     if (g_mode == 17) {
         if (b->phase != PH_LIVE) return 0;
         if (o->type == L_TWEAK) return b->keyed == 2 || (g_c == CK_MANTIS && b->keyed);
-        if (o->type == L_USE || o->type == L_USEBIG) return b->keyed && b->ncalls < 3;
+        if (o->type == L_USE || o->type == L_USEBIG || o->type == L_USEDEC) return b->keyed && b->ncalls < 3;
         return b->ncalls < 6 || o->type == L_CLEANUP;
     }
     if (o->type == L_CLEANUP) return 1;
@@ -83,7 +84,7 @@ static int l_enabled(int op)
 
 static void l_opname(int op, char *buf, size_t n)
 {
-    static const char *nm[] = {"init", "set_key", "set_tweaked_key", "set_tweak", "set_counter", "use", "use(batch+3)", "swap_modes", "cleanup", "set_key(shortest)", "use(0 bytes)", "init[allocation refused]"};
+    static const char *nm[] = {"init", "set_key", "set_tweaked_key", "set_tweak", "set_counter", "use", "use(batch+3)", "swap_modes", "cleanup", "set_key(shortest)", "use(0 bytes)", "init[allocation refused]", "use(decrypt)"};
     snprintf(buf, n, "%s(obj%d)", nm[l_ops[op].type], l_ops[op].obj);
 }
 
@@ -204,6 +205,9 @@ static void l_apply(int op, int check)
         if (g_okind == OK_CTR) r = ctr_encrypt(g_c, &b->h.c, out, in, n);
         else r = par_crypt(g_c, &b->h.p, out, in, tw, (size_t)par_batch(g_c, cipher_max_be(g_c)) + (size_t)g_bs, 0);   /* one widest batch plus a block, whatever back end serves the object */
         break; }
+    case L_USEDEC:
+        r = par_crypt(g_c, &b->h.p, out, in, tw, (size_t)par_batch(g_c, cipher_max_be(g_c)) + (size_t)g_bs, 1);
+        break;
     case L_USE0:
         if (g_okind == OK_CTR) r = ctr_encrypt(g_c, &b->h.c, out, in, 0);
         else r = par_crypt(g_c, &b->h.p, out, in, tw, 0, 0);
@@ -259,7 +263,7 @@ static void l_apply(int op, int check)
         } else if (o->type != L_INIT && o->type != L_INITFAIL && g_mode == 15) {
             if (g_alloc_calls != calls0 || count_frees() != frees0) l_report("unexpected-allocation", op, "a non-init call used the allocator");
             if (b->phase != PH_LIVE && r != 0 && r != -2) l_report("dead-object-accepted", op, "call on a %s object returned %d", b->phase == PH_ZERO ? "zeroed" : (b->phase == PH_FAILED ? "failed-init" : "cleaned-up"), r);
-            if (b->phase == PH_LIVE && r == 0 && (o->type == L_KEY || o->type == L_KEYSHORT || o->type == L_TKEY || o->type == L_CTR || ((o->type == L_USE || o->type == L_USE0) && b->keyed)))
+            if (b->phase == PH_LIVE && r == 0 && (o->type == L_KEY || o->type == L_KEYSHORT || o->type == L_TKEY || o->type == L_CTR || ((o->type == L_USE || o->type == L_USE0 || o->type == L_USEDEC) && b->keyed)))
                 l_report("live-object-rejected", op, "valid call on a live object returned 0");
         }
         /* conservation: blocks owned by live objects == live blocks */
@@ -309,8 +313,8 @@ static int setup_kind(const char *name)
 /* =========================================================== C16: allocation-failure enumeration */
 
 static const char *PRIOR[] = {"zeros", "0xFF", "0xA5", "copy-of-live-object", "copy-of-cleaned-up-object", "painted (--paint pattern; poisoned under MemorySanitizer)"};
-enum { F_CLEANUP, F_KEY, F_CTR, F_ENC, F_SWAP, F_CLEANUP2, F_KEY2, F_NOPS };
-static const char *FNAME[] = {"cleanup", "set_key", "set_counter", "use", "swap_modes", "cleanup", "set_key(other variant)"};
+enum { F_CLEANUP, F_KEY, F_CTR, F_ENC, F_SWAP, F_CLEANUP2, F_KEY2, F_DEC, F_NOPS };
+static const char *FNAME[] = {"cleanup", "set_key", "set_counter", "use", "swap_modes", "cleanup", "set_key(other variant)", "use(other entry point / size)"};
 
 static int f_call(int okind, Cipher c, void *h, int op)
 {
@@ -325,6 +329,9 @@ static int f_call(int okind, Cipher c, void *h, int op)
         return okind == OK_CTR ? ctr_set_tweaked_key(c, co, KEYS[1], (unsigned)cipher_bs(c) * 2) : par_set_key(c, po, KEYS[1], (unsigned)cipher_bs(c) * 3, 5, MANTIS_ENCRYPT);
     case F_CTR: return okind == OK_CTR ? ctr_set_counter(c, co, KEYS[1], (unsigned)cipher_bs(c)) : 0;
     case F_ENC: return okind == OK_CTR ? ctr_encrypt(c, co, out, in, 9) : par_crypt(c, po, out, in, tw, (size_t)par_batch(c, cipher_max_be(c)) + (size_t)cipher_bs(c), 0);
+    case F_DEC:      /* the other data entry point: parallel decrypt (Mantis has one entry point: a single block); CTR: a request longer than a batch */
+        return okind == OK_CTR ? ctr_encrypt(c, co, out, in, (size_t)ctr_batch(c, cipher_max_be(c)) + 3)
+                               : par_crypt(c, po, out, in, tw, c == CK_MANTIS ? (size_t)cipher_bs(c) : (size_t)par_batch(c, cipher_max_be(c)) + (size_t)cipher_bs(c), 1);
     default: if (okind == OK_PAR && c == CK_MANTIS) par_swap_modes(po); return 0;
     }
 }
@@ -457,7 +464,7 @@ static void run_c16(void)
                 c16_case(ok, (Cipher)c, be, prior, k, s0, s1, s2);
             }
         if (job < 4) sample_add("%s %s on %s: allocation k of init fails, caller object previously {zeros,0xFF,0xA5,copy of a live object,copy of a cleaned-up object}, "
-                                "then every sequence of up to 3 of {cleanup,set_key,set_counter,use,swap_modes,cleanup}, then init/use/cleanup", ok ? "parallel" : "ctr", cipher_name((Cipher)c), be_name(be));
+                                "then every sequence of up to 3 of {cleanup,set_key,set_counter,use,swap_modes,cleanup,set_key(other variant),use(decrypt entry point / longer request)}, then init/use/cleanup", ok ? "parallel" : "ctr", cipher_name((Cipher)c), be_name(be));
     }
 }
 
